@@ -164,8 +164,11 @@ def handle_quic_packet(packet: Packet, keylog, quic_sessions: list[QuicSession],
                 session.handle_packet(packet, dcid, quic_version)
                 return
         else:
-            # match by checking all known cid lengths for session
-            for cid in session.client_cids | session.server_cids:
+            # match by checking all known cid lengths for session: longest first, so that the result does not
+            # depend on set iteration order; a zero-length cid matches every datagram and identifies nothing
+            for cid in sorted(session.client_cids | session.server_cids, key=lambda c: (-len(c), c)):
+                if len(cid) == 0:
+                    continue
                 if cid == packet_payload[1:1 + len(cid)]:
                     session.handle_packet(packet, cid, quic_version)
                     return
